@@ -16,26 +16,26 @@ def fresh_inv_stmt : Prop := ∀ p, Fresh p → FInvS p
 def init_fresh_stmt : Prop := ∃ p, Fault.init = some p ∧ Fresh p ∧ view p = []
 /-- without a fault, on a fresh state, a call does exactly what Model.Crash says it does, and returns nil -/
 def no_fault_agrees_stmt : Prop :=
-  ∀ p, Fresh p → ∀ op, op.ok p.disk → ∀ wf,
-    (runOp p op none wf).1.disk = p.disk.applyAll (prog p.disk op) ∧ (runOp p op none wf).2 = true ∧
-    (runOp p op none wf).1.frozen = none
+  ∀ p, Fresh p → ∀ op, op.ok p.disk → ∀ pl : Plan, pl.all (·.isNone) = true →
+    (runOp p op pl).1.disk = p.disk.applyAll (prog p.disk op) ∧ (runOp p op pl).2 = true ∧
+    (runOp p op pl).1.frozen = none
 
-/-! ### one call, at most one failing action -/
+/-! ### one call under any fault plan -/
 def finv_call_stmt : Prop :=
-  ∀ p, FInvS p → ∀ op, OkV (view p) op → ∀ k wf, FInvS (runOp p op k wf).1
+  ∀ p, FInvS p → ∀ op, OkV (view p) op → ∀ pl, FInvS (runOp p op pl).1
 
 /-- what readers of the running process see changes exactly when the call returns nil, and then as specified -/
 def call_view_stmt : Prop :=
-  ∀ p, FInv p → ∀ op, OkV (view p) op → ∀ k wf,
-    view (runOp p op k wf).1 = if (runOp p op k wf).2 then specApply (view p) op else view p
+  ∀ p, FInv p → ∀ op, OkV (view p) op → ∀ pl,
+    view (runOp p op pl).1 = if (runOp p op pl).2 then specApply (view p) op else view p
 
 /-- the log the disk stands for (what a restart would recover) after a call: what readers see; or, the call having
     failed, what they would see had it succeeded; or it moved along with the call from what it was -/
 def call_disklog_stmt : Prop :=
-  ∀ p, FInv p → ∀ op, OkV (view p) op → ∀ k wf,
-    absLog (runOp p op k wf).1.disk = view (runOp p op k wf).1 ∨
-    ((runOp p op k wf).2 = false ∧ absLog (runOp p op k wf).1.disk = specApply (view p) op) ∨
-    absLog (runOp p op k wf).1.disk = (if (runOp p op k wf).2 then specApply (absLog p.disk) op else absLog p.disk)
+  ∀ p, FInv p → ∀ op, OkV (view p) op → ∀ pl,
+    absLog (runOp p op pl).1.disk = view (runOp p op pl).1 ∨
+    ((runOp p op pl).2 = false ∧ absLog (runOp p op pl).1.disk = specApply (view p) op) ∨
+    absLog (runOp p op pl).1.disk = (if (runOp p op pl).2 then specApply (absLog p.disk) op else absLog p.disk)
 
 /-! ### restart  (first stated for `FInv`: refuted — `restart_total_refuted`, `restart_view_refuted` in FaultLemmasD3) -/
 def restart_total_stmt0 : Prop := ∀ p, FInv p → ∃ p', restart p = some p' ∧ Fresh p'
